@@ -173,7 +173,7 @@ inline std::string mutate_spec(Spec* sp, sup::Rng& r) {
     case 5: {  // out-of-order / duplicate times
       if (b.times.size() < 2) return "noop";
       size_t k = static_cast<size_t>(r.range(1, (int64_t)b.times.size() - 1));
-      b.times[k] = r.chance(0.5) ? b.times[k - 1] : b.times[k - 1] - 1;
+      b.times[k] = r.chance(0.5) ? b.times[k - 1] : static_cast<int64_t>(static_cast<uint64_t>(b.times[k - 1]) - 1);  // wraps
       return "time-order";
     }
     case 6: {  // UT offset boundary
@@ -284,7 +284,7 @@ inline std::string mutate_spec(Spec* sp, sup::Rng& r) {
     case 17: {  // transitions closer than their offset jumps (civil order violated)
       if (b.types.size() < 2 || b.times.size() < 2) return "noop";
       size_t k = static_cast<size_t>(r.range(1, (int64_t)b.times.size() - 1));
-      b.times[k] = b.times[k - 1] + r.range(1, 3600);
+      b.times[k] = static_cast<int64_t>(static_cast<uint64_t>(b.times[k - 1]) + static_cast<uint64_t>(r.range(1, 3600)));  // wraps
       return "crossing-transitions";
     }
     case 18: {  // dst flag values other than 0/1, type 0 DST and referenced
